@@ -154,6 +154,8 @@ def core_scenarios():
     out = []
     out.append({"comp": "lru", "cfg": {"size": 2, "mark_on_update": True},
                 "threads": [[["set", 1, 10], ["get", 1]], [["set", 2, 20], ["set", 3, 30]], [["len"], ["get", 1]]]})
+    out.append({"comp": "lru", "cfg": {"size": 1, "mark_on_update": True},
+                "threads": [[["set", 1, 10], ["getd", 1]], [["set", 2, 20]], [["getd", 1], ["getd", 2]]]})
     out.append({"comp": "store", "cfg": {"initial": [["a", "k", 1]]},
                 "threads": [[["set", "a", "k", 2], ["get", "a", "k"]], [["del_all", "a"], ["data", "a"]]]})
     # readers overlapping a rewrite: a reader, the writer, another reader (reload) - in every order
@@ -166,12 +168,15 @@ def core_scenarios():
                 "threads": [[["get", "alpha"]], [["get", "beta"]]]})
     out.append({"comp": "yaml", "cfg": {"states": Y_STATES, "cache_size": 4},
                 "threads": [[["get", "alpha"]], [["write", 1]], [["get", "beta"]]]})
+    # a cache too small for both systems: the second call of one thread finds its entry, or finds it evicted
+    out.append({"comp": "yaml", "cfg": {"states": Y_STATES, "cache_size": 1},
+                "threads": [[["get", "alpha"], ["get", "alpha"]], [["get", "beta"]]]})
     return out
 
 
 def scenarios(rng, tier):
     out = core_scenarios()
-    lru_ops = lambda: [rng.choice([["get", rng.randrange(3)], ["set", rng.randrange(3), rng.randrange(5)],
+    lru_ops = lambda: [rng.choice([["get", rng.randrange(3)], ["getd", rng.randrange(3)], ["set", rng.randrange(3), rng.randrange(5)],
                                    ["del", rng.randrange(3)], ["contains", rng.randrange(3)], ["len"], ["clear"],
                                    ["set", rng.randrange(3), rng.randrange(5)]]) for _ in range(rng.randrange(1, 4))]
     for _ in range(4 if tier == "quick" else 40):
